@@ -12,6 +12,10 @@
 //   sa <vt> <axes> <bw> <w> <h> | planes         fill all channels, then sub_histogram<axes>() -> sorted bins
 //   sr <vt> <axis> <bw> <w> <h> <lo> <hi> | planes   fill all channels, then sub_histogram<axis>(t1, t2), t1/t2 = lo/hi on every axis
 //   no <vt> <sel> <bw> <w> <h> | planes          fill, normalize -> "key:count:bits-of-normalized-double ..." sorted
+//   cn <vt> <sel> <bw> <mode> <w> <h> | planes   fill, make the bins fractional (mode q: every bin * 0.25; mode n: normalize()), then
+//        cumulative_histogram -> sorted "key:value" with value*4 (q, exact) or round(value * 2^20) (n)
+//   sv <vt1> <vt2> <w> <h> <presize> | initial vector (presize entries) | plane 1 | plane 2      std::vector<int> two-step sequence:
+//        v = initial; if vt1 != "-": fill_histogram(view1, v) ; then fill_histogram(view2, v, /*accumulate*/ true) -> "size : i:count ..."
 //   st <vt> <w> <h> | plane                      gray8/gray16: vector<int>, map<int,int>, array<int,256> (g8), sparse -> four sorted lists
 #define BOOST_ENABLE_ASSERT_HANDLER
 #include <string>
@@ -24,6 +28,7 @@ inline void assertion_failed_msg(char const* expr, char const*, char const*, cha
 #include <boost/gil/histogram.hpp>
 #include <boost/gil/extension/histogram/std.hpp>
 #include <algorithm>
+#include <cmath>
 #include <map>
 #include "harness.hpp"
 namespace gil = boost::gil;
@@ -120,6 +125,23 @@ template <class Img, std::size_t N, std::size_t... D> std::string no_sel(Op cons
     auto counts = hist; hist.normalize();
     return bins(hist, true, &counts);
 }
+template <class Img, std::size_t N, std::size_t... D> std::string cn_sel(Op const& op, std::index_sequence<D...>) {
+    auto const& hd = op.head; std::size_t bw = (std::size_t)hv::to_ll(hd[3]); bool quarter = hd[4] == "q"; ll w = hv::to_ll(hd[5]), h = hv::to_ll(hd[6]);
+    Buf<Img> a(w, h); load(a.v, op.groups, 0); typename Img::const_view_t av(a.v);
+    typename hist_of<N>::type hist; gil::fill_histogram<D...>(av, hist, bw);
+    if (quarter) { for (auto& kv : hist) kv.second *= 0.25; } else hist.normalize();
+    auto c = gil::cumulative_histogram(hist);
+    using key_t = typename hist_of<N>::type::key_type;
+    std::vector<std::pair<key_t, double>> v(c.begin(), c.end());
+    std::sort(v.begin(), v.end(), [](auto const& x, auto const& y) { return x.first < y.first; });
+    if (v.empty()) return "-";
+    std::string r;
+    for (auto const& kv : v) {
+        double q = quarter ? kv.second * 4.0 : std::floor(kv.second * 1048576.0 + 0.5);
+        r += key_str(kv.first, std::make_index_sequence<N>{}) + ":" + std::to_string((ll)q) + (quarter && q != std::floor(q) ? "?" : "") + " ";
+    }
+    return r;
+}
 template <class Img, std::size_t... A> std::string sa_axes(Op const& op, std::index_sequence<A...>) {
     auto const& hd = op.head; std::size_t bw = (std::size_t)hv::to_ll(hd[3]); ll w = hv::to_ll(hd[4]), h = hv::to_ll(hd[5]);
     constexpr int NC = gil::num_channels<typename Img::view_t>::value;
@@ -152,10 +174,11 @@ template <class Img, int NC> struct dispatch;
     template <class Img> static std::string FN(Op const& op, std::string const& sel, std::integral_constant<int, 4>) { \
         if (sel == "all") return FN##_sel<Img, 4>(op, std::index_sequence<>{}); if (sel == "3") return FN##_sel<Img, 1>(op, std::index_sequence<3>{}); \
         if (sel == "12") return FN##_sel<Img, 2>(op, std::index_sequence<1, 2>{}); return "bad-op"; }
-struct D { DISPATCH_BODY(fh) DISPATCH_BODY(cu) DISPATCH_BODY(no) };
+struct D { DISPATCH_BODY(fh) DISPATCH_BODY(cu) DISPATCH_BODY(no) DISPATCH_BODY(cn) };
 
 template <class Img> std::string by_channels_fh(Op const& op) { return D::fh<Img>(op, op.head[2], std::integral_constant<int, gil::num_channels<typename Img::view_t>::value>{}); }
 template <class Img> std::string by_channels_cu(Op const& op) { return D::cu<Img>(op, op.head[2], std::integral_constant<int, gil::num_channels<typename Img::view_t>::value>{}); }
+template <class Img> std::string by_channels_cn(Op const& op) { return D::cn<Img>(op, op.head[2], std::integral_constant<int, gil::num_channels<typename Img::view_t>::value>{}); }
 template <class Img> std::string by_channels_no(Op const& op) { return D::no<Img>(op, op.head[2], std::integral_constant<int, gil::num_channels<typename Img::view_t>::value>{}); }
 
 template <class Img> std::string sa(Op const& op, std::integral_constant<int, 2>) { auto a = op.head[2]; if (a == "0") return sa_axes<Img>(op, std::index_sequence<0>{}); if (a == "1") return sa_axes<Img>(op, std::index_sequence<1>{}); return "bad-op"; }
@@ -200,6 +223,19 @@ template <class Img> std::string st(Op const& op) {
     for (auto const& kv : mp) r += " " + std::to_string(kv.first) + ":" + std::to_string(kv.second);
     return r;
 }
+template <class Img> void vec_fill(std::vector<int>& v, std::vector<ll> const& plane, ll w, ll h, bool acc) {
+    Buf<Img> a(w, h); std::vector<std::vector<ll>> g{plane}; load(a.v, g, 0); typename Img::const_view_t av(a.v);
+    gil::fill_histogram(av, v, acc);
+}
+static std::string sv(Op const& op) {
+    auto const& hd = op.head; std::string vt1 = hd[1], vt2 = hd[2]; ll w = hv::to_ll(hd[3]), h = hv::to_ll(hd[4]);
+    std::vector<int> v(op.groups.at(0).begin(), op.groups.at(0).end());
+    if (vt1 == "g8") vec_fill<gil::gray8_image_t>(v, op.groups.at(1), w, h, false); else if (vt1 == "g16") vec_fill<gil::gray16_image_t>(v, op.groups.at(1), w, h, false);
+    if (vt2 == "g8") vec_fill<gil::gray8_image_t>(v, op.groups.at(2), w, h, true); else if (vt2 == "g16") vec_fill<gil::gray16_image_t>(v, op.groups.at(2), w, h, true); else return "bad-op";
+    std::string r = std::to_string(v.size()) + " :";
+    for (size_t i = 0; i < v.size(); ++i) if (v[i]) r += " " + std::to_string(i) + ":" + std::to_string(v[i]);
+    return r;
+}
 using d2_8_img = gil::image<gil::pixel<std::uint8_t, gil::devicen_layout_t<2>>>;
 
 #define VT(F, ...) \
@@ -226,10 +262,12 @@ int main() {
 #ifdef PT_B
         if (h[0] == "cu" && h.size() == 6) { VT(by_channels_cu, op) return "bad-op"; }
         if (h[0] == "no" && h.size() == 6) { VT(by_channels_no, op) return "bad-op"; }
+        if (h[0] == "cn" && h.size() == 7) { VT(by_channels_cn, op) return "bad-op"; }
 #endif
 #ifdef PT_C
         if (h[0] == "sa" && h.size() == 6) { VTM(sa) return "bad-op"; }
         if (h[0] == "sr" && h.size() == 8) { VTM(sr) return "bad-op"; }
+        if (h[0] == "sv" && h.size() == 6) return sv(op);
         if (h[0] == "st" && h.size() == 4) { if (vt == "g8") return st<gil::gray8_image_t>(op); if (vt == "g16") return st<gil::gray16_image_t>(op); return "bad-op"; }
 #endif
         return "bad-op";
